@@ -18,7 +18,8 @@ NPROC = os.cpu_count() or 4
 INC_DIRS = ["include", "common", "libxcm/core", "libxcm/tp/common", "libxcm/tp/ux",
             "libxcm/tp/tcp", "libxcm/tp/dns", "libxcm/tp/tls", "libxcm/ctl", "libxcmctl",
             "tools/common", "tools/xcmrelay"]
-SAN = ["-fsanitize=address,undefined", "-fno-sanitize-recover=undefined", "-fno-omit-frame-pointer"]
+SAN = ["-fsanitize=address,undefined", "-fno-sanitize-recover=undefined", "-fno-omit-frame-pointer",
+       "-fno-sanitize=shift-base"]   # c-ares' own ARES_GETSOCK_WRITABLE macro shifts 1 << 31
 BASE_CFLAGS = ["-std=gnu99", "-O1", "-g", "-w", "-D_GNU_SOURCE", "-DXCM_VERIF",
                '-DSYSCONFDIR="/usr/local/etc"']
 ALLOWED_AXIOMS = {"propext", "Classical.choice", "Quot.sound"}
@@ -192,7 +193,7 @@ def build_lib(variant="asan", extra_flags=()):
         flags += ["-fsanitize=thread", "-fno-omit-frame-pointer"]
     elif variant == "plain":
         pass
-    d = cache_dir("lib-" + variant, " ".join(extra_flags))
+    d = cache_dir("lib-" + variant, " ".join(flags))
     a = os.path.join(d, "libxcm_verif.a")
     with Lock("lib-" + variant):
         if os.path.exists(a):
@@ -230,7 +231,7 @@ def build_harness(name, sources, variant="asan", libs=(), extra_flags=(), link_l
         for f in sorted(fs):
             with open(os.path.join(dpath, f), "rb") as fh:
                 hh.update(f.encode() + hashlib.sha256(fh.read()).digest())
-    d = cache_dir("h-%s-%s" % (name, variant), hh.hexdigest() + " ".join(extra_flags) + " ".join(ldflags) + str(whole))
+    d = cache_dir("h-%s-%s" % (name, variant), hh.hexdigest() + " ".join(flags) + " ".join(ldflags) + str(whole))
     exe = os.path.join(d, name)
     lib = build_lib(variant) if link_lib else None
     with Lock("h-" + name + variant):
